@@ -1,7 +1,16 @@
 package main
 
-// Environment objects created by harness intrinsics: scripted readers and
-// recording writers.  (Filled in with the harnesses that need them.)
+// Environment objects: the daily logger of github.com/goblimey/go-tools is
+// replaced by a recording writer (file rotation, the logger's midnight
+// blackout and disk errors are outside every claim that uses it).
+
+import "strings"
+
+type dlog struct {
+	dir, leader, trailer string
+	data                 []value
+	writes               int
+}
 
 func icReaderRead(fr *frame, args []value) value {
 	panic(pathAbort{"(*bufio.Reader).Read on a reader that is not a harness stub"})
@@ -17,4 +26,41 @@ func icFileRead(fr *frame, args []value) value {
 
 func icFileWrite(fr *frame, args []value) value {
 	panic(pathAbort{"(*os.File).Write"})
+}
+
+func icDailyLoggerNew(fr *frame, args []value) value {
+	dir, _ := args[0].(string)
+	leader, _ := args[1].(string)
+	trailer, _ := args[2].(string)
+	d := &dlog{dir: dir, leader: leader, trailer: trailer}
+	fr.m.dlogs = append(fr.m.dlogs, d)
+	return &opaque{kind: "dailylogger", data: d}
+}
+
+func icDailyLoggerWrite(fr *frame, args []value) value {
+	o, _ := args[0].(*opaque)
+	if o == nil {
+		fr.tpanic("invalid memory address or nil pointer dereference (nil daily logger)")
+	}
+	d := o.data.(*dlog)
+	bs, _ := args[1].([]value)
+	for _, b := range bs {
+		d.data = append(d.data, b)
+	}
+	d.writes++
+	return tuple{BV(uint64(len(bs)), 64), iface{}}
+}
+
+// verifDailyLog(dir, leader): everything written so far to the daily logs of
+// that directory whose file name starts with leader.
+func inDailyLog(fr *frame, args []value) value {
+	dir, _ := args[0].(string)
+	leader, _ := args[1].(string)
+	var out []value
+	for _, d := range fr.m.dlogs {
+		if d.dir == dir && strings.HasPrefix(d.leader, leader) {
+			out = append(out, d.data...)
+		}
+	}
+	return out
 }
